@@ -268,6 +268,7 @@ pub struct DecryptableScalarProof {
     /// The byte proofs
     pub byte_proofs: [ByteProof; 32],
     /// The range proof
+    #[serde(deserialize_with = "crate::utils::deserialize_range_proof")]
     pub range_proof: RangeProof,
     /// The byte ciphertext
     pub byte_ciphertext: Ciphertext,
